@@ -120,6 +120,11 @@ pub fn one_case(rep: &Report, idx: usize, case: &CCase, inj: &Injection, reader_
             if flaky {
                 spec.retries = Some(2);
             }
+            // ... and one in four meets a server (a cache, a proxy) that answers the first
+            // chunk-data request with fewer bytes than asked for under a matching
+            // Content-Length — a complete, self-consistent response. Such a clone may fail;
+            // one that reports success must have produced the source.
+            let short_body = (reader_sel >> 7) % 4 == 2;
             server = Server::start(
                 archive.clone(),
                 Arc::new(move |r, _f| {
@@ -127,6 +132,15 @@ pub fn one_case(rep: &Report, idx: usize, case: &CCase, inj: &Injection, reader_
                         let len = r.range.map(|(a, e)| (e + 1 - a) as usize).unwrap_or(0);
                         if len >= 2 {
                             return Action::CutAfter(1 + fs % (len - 1));
+                        }
+                    }
+                    if short_body && r.n == 2 {
+                        if let Some((a, e)) = r.range {
+                            let (a, e) = (a as usize, (e as usize + 1).min(_f.len()));
+                            if a < e && e - a >= 2 {
+                                let keep = 1 + fs % (e - a - 1);
+                                return Action::Custom { status: 206, declared_len: None, body: _f[a..a + keep].to_vec() };
+                            }
                         }
                     }
                     if frag {
@@ -149,6 +163,13 @@ pub fn one_case(rep: &Report, idx: usize, case: &CCase, inj: &Injection, reader_
             let o = proc::run(&run);
             rep.eval();
             rep.count("requests_served_to_cli", server.take_log().len() as u64);
+            if short_body && server.take_log().iter().any(|l| l.action.starts_with("custom")) {
+                if !o.exit.ok() && o.exit != Exit::Timeout && !o.exit.crashed() {
+                    rep.count("short_body_responses.clone_failed_loudly", 1);
+                    return Ok(());
+                }
+                rep.count("short_body_responses.clone_reported_success", 1);
+            }
             return finish_cli(rep, o, &out_path, &source, who, case, nchunks, &archive, idx, reader_sel);
         }
         let mut run = Run::new(&dir, "clone", scn::clone_args(&spec));
